@@ -2,15 +2,16 @@
   The external vocabulary of `banderwagon/element.go`, as the element translator
   (`go/cmd/extract/elements.go`) sees it: everything the file calls but does not define —
   gnark-crypto's base-field methods and point formulas, the repository's `fp`/`fr` helpers and
-  `bandersnatch.GetPointFromX` — is a field of this structure.  The tie theorems
+  `fp.SqrtPrecomp` — is a field of this structure.  The tie theorems
   (`Tie/Elements.lean`) instantiate it with the model's functions.  Core Lean only.
 -/
 import GoIpa.Model.Curve
 namespace GoIpa
 
 structure ElemEnv (K S : Type) where
-  /-- `bandersnatch.CurveParams.A` -/
+  /-- `bandersnatch.CurveParams.A`, `.D` -/
   a : K
+  d : K
   /-- `fp.Element.LexicographicallyLargest` -/
   lex : K → Bool
   /-- `fp.Element.Legendre` -/
@@ -25,8 +26,8 @@ structure ElemEnv (K S : Type) where
   decReduce : Bytes → K
   /-- `PointAffine.FromProj` -/
   fromProj : Proj K → Aff K
-  /-- `bandersnatch.GetPointFromX` (`none` = nil) -/
-  getPointFromX : K → Bool → Option (Aff K)
+  /-- `fp.SqrtPrecomp` (`none` = nil) -/
+  sqrt : K → Option K
   /-- `fp.BatchInvert` -/
   batchInvert : List K → List K
   /-- `PointProj.Add`, `.Double`, `.Neg`, `.MixedAdd`, `.ScalarMultiplication` -/
